@@ -7,6 +7,52 @@ import os, subprocess
 from . import core, runner, chk_native as N
 
 
+def script_task(t):
+    """script level: every assertion set of a family (n <= 2 over the 6-atom pool) as (check-sat)(get-model)(check-sat)(get-model) through the real
+    main(); a global stop request is placed before EVERY poll k of the run and withdrawn m polls later (m = 1, 2, never): the schedules of a second
+    thread calling notifyGlobalStop() and then resetGlobalStop().  Every answer must be unknown or the undisturbed answer, every model printed after
+    sat must satisfy the assertions (exact evaluation)."""
+    from . import families as F, scriptmc as S
+    famname, n, opts, start, step = t
+    fam = F.FAMILIES[famname]
+    res = core.new_result(); cov = res['cov']
+    w = S.worker()
+    import itertools
+    for assertions in itertools.islice(F.assertion_sets(fam.core, n, ()), start, None, step):
+        script = S.build_script(fam, assertions, opts, tail='(get-model)(check-sat)(get-model)')
+        solo = w.run(script, timeout=5, stop=(1 << 30, 0))
+        if solo.timeout or solo.crash: cov['solo_timeout_or_crash'] += 1; continue
+        sb = S.blocks(solo.out)
+        if len(sb) < 4 or sb[0] not in ('sat', 'unsat'): cov['solo_not_definitive'] += 1; continue
+        want = sb[0]; N = solo.polls
+        cov['scripts'] += 1; cov['polls_solo'] += N
+        res['distinct'].append((famname, opts, tuple(assertions)))
+        for k in range(N + 1):
+            for m in (0, 1, 2):
+                r = w.run(script, timeout=5, stop=(k, m))
+                cov['executions'] += 1; cov['schedules'] += 1
+                res['states'].append((famname, tuple(assertions), k))
+                def viol(sym, what):
+                    rec = {'logic': fam.logic, 'family': famname, 'options': sorted(opts), 'symptom': sym, 'site': 'script_level', 'variant': 'rel', 'input_class': 'withdrawn_after_%d' % m if m else 'not_withdrawn', 'what': what[:300]}
+                    res['violations'].append((rec, script + '\n; global stop before poll %d of the run, withdrawn %s' % (k, ('%d polls later' % m) if m else 'never'), 'smt2'))
+                if r.timeout: viol('stop:hang', 'the run does not end within 5 s with the stop before poll %d' % k); continue
+                if r.crash: viol('stop:crash', 'the run ends with %s' % r.crash); continue
+                b = S.blocks(r.out)
+                if len(b) != 4: viol('stop:output_shape', 'expected 4 responses, got %r' % r.out[:150]); continue
+                for i in (0, 2):
+                    a = b[i]
+                    cov['answers_' + (a if a in ('sat', 'unsat', 'unknown') else 'other')] += 1
+                    if a == 'unknown': continue
+                    if a != want: viol('stop:wrong_answer', 'check-sat #%d answers %s, undisturbed %s (stop before poll %d, m=%d)' % (i // 2, a, want, k, m)); break
+                    if a == 'sat' and fam.models:
+                        if S.is_error(b[i + 1]): viol('stop:no_model_after_sat', b[i + 1][:100]); break
+                        reason, _ = S.check_model(fam, assertions, b[i + 1])
+                        if reason is not None: viol('stop:bad_model', 'after check-sat #%d (stop before poll %d, m=%d): %s' % (i // 2, k, m, reason)); break
+                        cov['models_certified'] += 1
+        if len(res['samples']) < 1: res['samples'].append({'script': script, 'polls': N, 'undisturbed': solo.out[:100]})
+    return res
+
+
 def run(prop, tier):
     chk = N.NativeCheck('C25', tier, 'model_checking',
                         'per instance (19 quick / 24 thorough: pigeonhole sat and unsat, LRA, LIA, UF, UF+LRA; incremental, non-incremental with SatELite, lookahead, picky) and per flag (notifyStop, notifyGlobalStop): the stop request, issued by a real second thread, '
@@ -40,6 +86,15 @@ def run(prop, tier):
         rec = {'symptom': 'data_race', 'site': site[:120], 'variant': 'tsan', 'cases': len(races), 'what': 'ThreadSanitizer reports %d race(s) while a second thread issues the stop request; first access: %s' % (len(races), site), 'logic': None, 'options': []}
         chk.violations.append((rec, p.stderr[:6000] + '\nreplay: build/tsan/harness/stopmc race %d %d' % (reps, nth), 'txt'))
     chk.bounds_done.append({'stage': 'free-running ThreadSanitizer pass: %d stopper thread(s) x %d delays per instance and flag' % (nth, reps)})
+    # script level, through the real main(): global stop placed before every poll and withdrawn later (see script_task)
+    from . import families as F
+    runner.harness('rel', 'osmt_worker')
+    fams = ['PROP', 'QF_UF', 'QF_LRA', 'QF_LIA', 'QF_IDL', 'QF_UFLRA'] if tier == 'quick' else list(F.LOGICS_MODELS) + ['QF_AX', 'QF_ALIA']
+    cov_before = chk.cov['executions']
+    chk.run_stage('script level: assertion sets n<=2 of %d families, global stop before every poll, withdrawn after 1 / 2 polls / never' % len(fams), [(f, 2, (), s, 8) for f in fams for s in range(8)], script_task)
+    if tier == 'thorough':
+        for o in (('noincr',), ('picky',), ('ghost',), ('proofs',)):
+            chk.run_stage('script level, options %s' % (o,), [(f, 2, o, s, 8) for f in fams for s in range(8)], script_task)
     chk.cov['executions'] = chk.cov['schedules']
     chk.cov['transitions'] = chk.cov['schedules']
     chk.cov['traces_validated'] = chk.cov['schedules']
